@@ -37,6 +37,9 @@ import (
 
 const origin = "@ORIGIN@"
 
+// Default is what runs when no target is named.
+var Default = Probe
+
 // Probe reports what a target sees as one JSON line.
 func Probe(ctx context.Context) error {
 	cwd, _ := os.Getwd()
@@ -75,12 +78,20 @@ func Echo() error {
 	if err != nil {
 		return err
 	}
-	for _, step := range strings.Split(os.Getenv("VERIF_ECHO_SCRIPT"), ",") {
+	repeat, _ := strconv.Atoi(os.Getenv("VERIF_ECHO_REPEAT"))
+	if repeat < 1 {
+		repeat = 1
+	}
+	steps := strings.Split(os.Getenv("VERIF_ECHO_SCRIPT"), ",")
+	for i := 0; i < repeat*len(steps); i++ {
+		step := steps[i%len(steps)]
 		if len(step) < 2 {
 			continue
 		}
 		n, _ := strconv.Atoi(step[1:])
-		if step[0] == 'o' {
+		if step[0] == 'z' {
+			time.Sleep(time.Duration(n) * time.Microsecond)
+		} else if step[0] == 'o' {
 			if n > len(out) {
 				n = len(out)
 			}
@@ -216,7 +227,15 @@ def base_env(m, proj, gocache):
     return out
 
 
-def run_proc(argv, cwd, env, stdin=b"", combined=False, timeout=240):
+def run_proc(argv, cwd, env, stdin=b"", combined=False, timeout=240, sinkfile=None):
+    if sinkfile:
+        # ONE open file passed as the process's stdout AND stderr (as `>log 2>&1` does)
+        try:
+            with open(sinkfile, "wb") as f:
+                p = subprocess.run(argv, cwd=cwd, env=env, input=stdin, timeout=timeout, stdout=f, stderr=f)
+            return {"rc": p.returncode, "out_b": open(sinkfile, "rb").read(), "err_b": b""}
+        except subprocess.TimeoutExpired:
+            return {"rc": 124, "out_b": open(sinkfile, "rb").read(), "err_b": b"[timeout]"}
     try:
         p = subprocess.run(argv, cwd=cwd, env=env, input=stdin, timeout=timeout, stdout=subprocess.PIPE,
                            stderr=subprocess.STDOUT if combined else subprocess.PIPE)
@@ -233,6 +252,8 @@ def payload(rng, kind):
         return b"line one\nline two without newline"
     if kind == "nl":
         return b"\n\n\r\n"
+    if kind in ("lines-even", "lines-odd"):
+        return b"".join(b"%05d\n" % i for i in range(0 if kind == "lines-even" else 1, 12000, 2))
     if kind == "binary":
         n = rng.choice([1, 17, 4096, 70000])
         return bytes(rng.getrandbits(8) for _ in range(n - 3)) + b"\x00\x00\xff" if n > 3 else b"\x00"
@@ -321,7 +342,16 @@ def gen_cfg(rng, klass, layout, gowrap, quick):
     # extra variables
     for k, v in rng.sample(EXTRA_POOL, rng.choice([0, 1, 2, 3, 3, 5, 8])):
         env[k] = v
-    if klass == "echo":
+    if klass == "alt":
+        # a few thousand short writes alternating between stderr and stdout, both going to ONE sink
+        c.update(word="echo", out="lines-odd", err="lines-even", combined=True, sink=rng.choice(["pipe", "file"]), seed=0,
+                 v=None, debug=None, t=None, gocmd=None)
+        if rng.random() < 0.35:
+            c.update(script="e6,z%d,o6,z%d" % (rng.choice([50, 200]), rng.choice([0, 100])), repeat=rng.choice([150, 300]))
+        else:
+            c.update(script=rng.choice(["e6,o6", "e6,o6", "e12,o12", "e6,e6,o6,o6", "e6,o6,o6,e6"]), repeat=rng.choice([1000, 2000, 3000]))
+        env = {k: v for k, v in env.items() if not k.startswith(b"MAGEFILE_")}
+    elif klass == "echo":
         c["word"] = "echo"
         c["out"] = rng.choice(["empty", "text", "binary", "nl"] + ([] if quick and rng.random() < 0.7 else ["big"]))
         c["err"] = rng.choice(["empty", "text", "binary", "nl"] + ([] if quick and rng.random() < 0.7 else ["big"]))
@@ -338,6 +368,18 @@ def gen_cfg(rng, klass, layout, gowrap, quick):
     else:
         c["stdin"] = rng.choice(["empty", "empty", "text", "binary", "nl"] + ([] if quick and rng.random() < 0.8 else ["big"]))
         c["seed"] = rng.getrandbits(32)
+        if klass == "default":
+            # no target word: the default target runs (and must read the caller's stdin like a named one)
+            c["word"] = ""
+            c["stdin"] = rng.choice(["text", "binary", "nl", "text", "binary"] + ([] if quick else ["big"]))
+            if rng.random() < 0.4:        # only -v (or nothing at all) on the command line
+                c.update(debug=None, t=None, gocmd=None, dv="none", wv="none")
+                if env.get(b"MAGEFILE_GOCMD", b"").startswith(b"/nonexistent"):
+                    del env[b"MAGEFILE_GOCMD"]
+                if rng.random() < 0.5:
+                    c["v"] = rng.choice(BOOL_FLAG[True])
+            for k in (b"MAGEFILE_LIST", b"MAGEFILE_HELP"):
+                env.pop(k, None)
     c["env"] = [[hx(k), hx(v)] for k, v in env.items()]
     return c
 
@@ -431,7 +473,7 @@ def run_cfg(cfg, proj, m, conv, gocache, rng_payload):
         lh.append("-l" if cfg["l"] else "-l=false")
     if cfg["h"] is not None:
         lh.append("-h" if cfg["h"] else "-h=false")
-    words = [cfg["word"]]
+    words = [cfg["word"]] if cfg["word"] else []
     expect_cwd = os.path.realpath(os.path.join(cwd, wstr if wstr else (dstr if dstr else ".")))
     runs = []
     if cfg["word"] == "echo":
@@ -443,9 +485,15 @@ def run_cfg(cfg, proj, m, conv, gocache, rng_payload):
         open(pe, "wb").write(perr)
         env = dict(base)
         env.update(own)
-        env.update({b"VERIF_ECHO_OUT": po.encode(), b"VERIF_ECHO_ERR": pe.encode(), b"VERIF_ECHO_SCRIPT": cfg["script"].encode()})
-        r = run_proc([m.bin] + args + lh + words, cwd, env, combined=cfg["combined"])
-        return {"echo": r, "pout": pout, "perr": perr, "env": env}
+        env.update({b"VERIF_ECHO_OUT": po.encode(), b"VERIF_ECHO_ERR": pe.encode(), b"VERIF_ECHO_SCRIPT": cfg["script"].encode(),
+                    b"VERIF_ECHO_REPEAT": str(cfg.get("repeat", 1)).encode()})
+        sink = os.path.join(proj.pay, "sink%d" % proj.npay) if cfg.get("sink") == "file" else None
+        r = run_proc([m.bin] + args + lh + words, cwd, env, combined=cfg["combined"], sinkfile=sink)
+        res = {"echo": r, "pout": pout, "perr": perr, "env": env}
+        if cfg.get("sink"):
+            # reference: the compiled binary with the same sink
+            res["echo_ref"] = run_proc([proj.bin] + words, expect_cwd, env, combined=True, sinkfile=(sink + "_ref") if sink else None)
+        return res
     stdin = payload(prng, cfg["stdin"])
     env_m = dict(base)
     env_m.update(own)
@@ -506,21 +554,28 @@ def oracle(cfg, proj, res, conv):
             bad.append(("run-failed", "mage echo exited %d: %s" % (r["rc"], r["err_b"][-300:])))
         elif cfg["combined"]:
             # one pipe for both streams: the interleaving the target wrote
-            o, e, exp = pout, perr, b""
-            for step in cfg["script"].split(","):
-                if len(step) < 2:
+            o, e, parts = pout, perr, []
+            for step in cfg["script"].split(",") * cfg.get("repeat", 1):
+                if len(step) < 2 or step[0] == "z":
                     continue
                 n = int(step[1:])
                 if step[0] == "o":
-                    exp += o[:n]
+                    parts.append(o[:n])
                     o = o[n:]
                 else:
-                    exp += e[:n]
+                    parts.append(e[:n])
                     e = e[n:]
-            exp += o + e
+            exp = b"".join(parts) + o + e
             got = r["out_b"]
+            sinkname = {"file": "one open file as stdout and stderr", "pipe": "one pipe as stdout and stderr"}.get(cfg.get("sink"), "one pipe as stdout and stderr")
             if not (got == exp if quiet else got.endswith(exp)):
-                bad.append(("interleaving", "stdout+stderr on one pipe: %d bytes, expected %d, first difference at %d (quiet=%s)" % (len(got), len(exp), _firstdiff(got, exp), quiet)))
+                if not quiet and len(got) > len(exp):       # the front end wrote first (warning, -v, -debug): judge what follows
+                    got = got[len(got) - len(exp):]
+                d = _firstdiff(got, exp)
+                bad.append(("interleaving", "[mage echo, %s, script %s x%d] the bytes did not arrive in the order the target wrote them: %d bytes, expected %d, first difference at byte %d (got %r, written %r)" % (
+                    sinkname, cfg["script"], cfg.get("repeat", 1), len(got), len(exp), d, got[max(0, d - 12):d + 18], exp[max(0, d - 12):d + 18])))
+            if "echo_ref" in res and res["echo_ref"]["out_b"] != exp:
+                bad.append(("interleaving", "[compiled binary echo, %s] reference run differs from the script: first difference at byte %d" % (sinkname, _firstdiff(res["echo_ref"]["out_b"], exp))))
         else:
             if r["out_b"] != pout:
                 bad.append(("stdout-bytes", "stdout: %d bytes, expected %d, first difference at %d" % (len(r["out_b"]), len(pout), _firstdiff(r["out_b"], pout))))
@@ -548,7 +603,12 @@ def oracle(cfg, proj, res, conv):
         if o["mode"] == "unknown":
             bad.append(("run-failed", tag + "no probe line, listing or help in the output: %r / %r" % (r["raw"]["out_b"][-200:], r["raw"]["err_b"][-300:])))
             continue
-        want_mode = None if (e_list and e_help) else ("list" if e_list else ("help" if e_help else "run"))
+        nowords = not cfg["word"]
+        ignoredefault = var_true(given_env, b"MAGEFILE_IGNOREDEFAULT")
+        if nowords:       # help without a word prints the usage; no word runs the default target (or lists when it is to be ignored)
+            want_mode = "usage" if e_help else ("list" if (e_list or ignoredefault) else "run")
+        else:
+            want_mode = None if (e_list and e_help) else ("list" if e_list else ("help" if e_help else "run"))
         if want_mode and o["mode"] != want_mode:
             clause = OFF if (route == "mage" and off in ("list", "help")) else "same-effect"
             bad.append((clause, tag + "the program did %r, the options say %r" % (o["mode"], want_mode)))
@@ -681,7 +741,7 @@ def coq_case(cfg, proj, res, run, conv, bools):
     dur_tab = coq_list(["(%s, %s)" % (cs(s), coq_opt(coq_Z(conv["dur"][s.decode("latin-1")])) if conv["dur"].get(s.decode("latin-1")) is not None else "None") for s in sorted(durs)])
     keys = sorted(set(own) | set(SIX) | {b"GOOS", b"GOARCH", b"HOME", b"GOFLAGS", b"NOSUCH_VARIABLE", b"MAGEFILE_CACHE", b"MAGEFILE_HASHFAST"})
     layout = "{| has_magefiles_dir := %s; top_has_magefiles := %s |}" % (coq_bool(proj.layout in ("mfdir", "both")), coq_bool(proj.layout in ("plain", "both")))
-    mode = {"run": "MRun", "list": "MList", "help": "MHelp", "usage": "MUsage"}.get(o["mode"], "MNoWords")
+    mode = {"run": "MRun", "list": "MList", "help": "MHelp", "usage": "MUsage"}.get(o["mode"], "MUsage")
     stream = {"stdout": "(Some CallerStdout)", "stderr": "(Some CallerStderr)", None: "None"}
     if o["mode"] == "run" and o.get("timeout") != -1:
         build = os.path.join(proj.d, "magefiles") if o["origin"] == "mfdir" else proj.d
@@ -696,9 +756,9 @@ def coq_case(cfg, proj, res, run, conv, bools):
                "o_env := []; o_stdin := None; o_stdout := None; o_stderr := None |}") % (mode, coq_Z(o.get("timeout", 0) or 0))
     # the caller's environment: the entries shared by all runs (header), this project's cache, this run's own
     envterm = "(base ++ %s)" % coq_env([(b"MAGEFILE_CACHE", run["env"][b"MAGEFILE_CACHE"])] + [(k, v) for k, v in own.items() if k != b"MAGEFILE_CACHE"])
-    return ("{| c_route := %s; c_flags := %s; c_cflags := %s; c_env := %s; c_layout := %s; c_nargs := 1; c_durs := %s; c_durstr := %s; "
+    return ("{| c_route := %s; c_flags := %s; c_cflags := %s; c_env := %s; c_layout := %s; c_nargs := %d; c_default := true; c_durs := %s; c_durstr := %s; "
             "c_bools := %s; c_resolve := %s; c_keys := %s; c_obs := %s |}") % (
-        "ViaMage" if route == "mage" else "ViaBinary", flags, cflags, envterm, layout, dur_tab,
+        "ViaMage" if route == "mage" else "ViaBinary", flags, cflags, envterm, layout, (1 if cfg["word"] else 0), dur_tab,
         coq_list(["(%s, %s)" % (coq_Z(n), cs(s.encode())) for n, s in durstr]),
         coq_list(["(%s, %s)" % (cs(s), opt_bool(conv["bool"][s])) for s in bools]),
         coq_list(["(%s, %s)" % (cs(a), cs(b)) for a, b in resolve]),
@@ -761,7 +821,8 @@ def run(ctx):
     # configurations
     nproj = 12 if quick else 16
     layouts = (["plain", "mfdir", "plain", "both"] * 4)[:nproj]
-    counts = {"matrix": 66, "listhelp": 10, "explicit-off": 6, "echo": 16} if quick else {"matrix": 1500, "listhelp": 120, "explicit-off": 40, "echo": 200}
+    counts = ({"matrix": 60, "default": 12, "listhelp": 10, "explicit-off": 6, "echo": 14, "alt": 6} if quick else
+              {"matrix": 1500, "default": 200, "listhelp": 120, "explicit-off": 40, "echo": 200, "alt": 40})
     cfgs = []
     if ctx.replay and ctx.replay.get("case"):
         cfgs = [ctx.replay["case"]]
@@ -828,7 +889,9 @@ def run(ctx):
         bump("w", c["wv"])
         if "echo" in res:
             nruns += 1
-            bump("echo", "%s/%s/%s" % (c["out"], c["err"], "one-pipe" if c["combined"] else "two-pipes"))
+            if "echo_ref" in res:
+                nruns += 1
+            bump("echo", "%s/%s/%s" % (c["out"], c["err"], ("one-" + c["sink"] + " %s x%d" % (c["script"], c["repeat"])) if c.get("sink") else ("one-pipe" if c["combined"] else "two-pipes")))
             continue
         bump("v_flag", c["v"])
         bump("debug_flag", c["debug"])
@@ -840,7 +903,7 @@ def run(ctx):
         bump("v_x_var", "flag %s x var %s" % (flag_bool(c["v"]), own.get(b"MAGEFILE_VERBOSE")))
         bump("debug_x_var", "flag %s x var %s" % (flag_bool(c["debug"]), own.get(b"MAGEFILE_DEBUG")))
         bump("timeout", ("flag " + c["t"] if c["t"] else "") + (" var %r" % own[b"MAGEFILE_TIMEOUT"] if b"MAGEFILE_TIMEOUT" in own else ""))
-        bump("stdin", c["stdin"])
+        bump("stdin", c["stdin"] + ("" if c["word"] else " (default target, no word)"))
         for k in own:
             if not k.startswith(b"MAGEFILE_VERBOSE") and k not in SIX:
                 bump("extras", k.decode("latin-1"))
